@@ -244,6 +244,19 @@ pub fn eval(c: &Case) -> (Vec<Finding>, String, usize) {
                         if now != Some(counter) {
                             bad("store-counter-differs-from-reported", format!("reported {counter}, stored {now:?}"));
                         }
+                        // nothing but the counter may change, and only on the credential used
+                        let same_but_counter = o.before.iter().all(|b| {
+                            o.after.iter().any(|a| {
+                                let mut b2 = b.clone();
+                                if b.id == *id {
+                                    b2.counter = a.counter;
+                                }
+                                *a == b2
+                            })
+                        }) && o.before.len() == o.after.len();
+                        if !same_but_counter {
+                            bad("successful-assertion-altered-record", "a successful assertion changed more than the used credential's counter".into());
+                        }
                     } else if o.after != o.before {
                         bad("counterless-assertion-changed-store", "store changed by an assertion with a counter-less credential".into());
                     }
